@@ -31,6 +31,8 @@ HOME = Path(os.environ.get("VERIF_HOME", Path(__file__).resolve().parent.parent)
 REPO = Path(os.environ.get("VERIF_REPO", "/repo"))
 PY = "/venv/bin/python"
 NCPU = int(os.environ.get("VERIF_NCPU", "16"))
+CRASH_SIGNALS = {-11: "SIGSEGV", -7: "SIGBUS", -4: "SIGILL", -8: "SIGFPE",
+                 -6: "SIGABRT"}
 
 
 # --------------------------------------------------------------------------
@@ -72,8 +74,11 @@ def prune_caches(thash: str) -> None:
     base = HOME / ".nbcache"
     if not base.is_dir():
         return
+    now = time.time()
     for d in base.iterdir():
-        if d.is_dir() and not d.name.endswith(thash):
+        # other trees' caches (mutants, older commits) go after six hours
+        if d.is_dir() and not d.name.endswith(thash) \
+                and now - d.stat().st_mtime > 6 * 3600:
             shutil.rmtree(d, ignore_errors=True)
 
 
@@ -257,12 +262,21 @@ def run_check(pid: str, tier: str, replay: str | None = None) -> int:
 
 def _replay(mod, pid, tier, seed, replay, thash, workdir) -> int:
     w = json.loads(Path(replay).read_text())
-    shard = {"name": "replay", "engine": w.get("engine", "jit"),
-             "replay_case": w["case"], "args": {}}
-    proc, _, out = _run_shard_subprocess(pid, tier, w.get("seed", seed), 0,
-                                         shard, thash, workdir)
+    if isinstance(w["case"], dict) and w["case"].get("kind") == "__shard__":
+        shard = dict(w["case"]["spec"])
+        sidx = w["case"]["idx"]
+    else:
+        shard = {"name": "replay", "engine": w.get("engine", "jit"),
+                 "replay_case": w["case"], "args": {}}
+        sidx = 0
+    proc, _, out = _run_shard_subprocess(pid, tier, w.get("seed", seed),
+                                         sidx, shard, thash, workdir)
     proc.wait(timeout=7200)
-    sys.stdout.write(proc.logfile.read_text())
+    sys.stdout.write(proc.logfile.read_text(errors="replace")[-6000:])
+    if proc.returncode in CRASH_SIGNALS:
+        print(f"replayed: process killed by {CRASH_SIGNALS[proc.returncode]}")
+        print(f"VIOLATION property={pid} replay={replay}")
+        return 1
     if not out.is_file():
         print(f"INCONCLUSIVE property={pid} replay shard produced no result")
         return 2
@@ -282,6 +296,8 @@ def _run(mod, pid, tier, seed, thash, workdir, t0) -> int:
     running: list = []
     results: list[dict] = []
     inconclusive: list[str] = []
+    crash_violations: list[dict] = []
+    idx_of = {id(sh): i for i, sh in enumerate(shards)}
     # a cold numba cache: let the first shard of each engine go first alone
     # is not worth the latency; shards simply compile in parallel.
     while pending or running:
@@ -314,8 +330,24 @@ def _run(mod, pid, tier, seed, thash, workdir, t0) -> int:
                         f"shard {sh['name']}: unreadable result ({e})")
             else:
                 tail = "\n".join(txt.strip().splitlines()[-25:])
-                inconclusive.append(
-                    f"shard {sh['name']} died rc={rc} without result:\n{tail}")
+                if rc in CRASH_SIGNALS:
+                    # the interpreter running the real code was killed by a
+                    # memory fault: an observed violation, replayable by
+                    # re-running the shard
+                    crash_violations.append({
+                        "property": pid,
+                        "mech": f"process-crash:{CRASH_SIGNALS[rc]}",
+                        "what": f"shard {sh['name']} was killed by "
+                                f"{CRASH_SIGNALS[rc]} while running the "
+                                f"workload:\n{tail[-1500:]}",
+                        "engine": sh.get("engine", "jit"), "seed": seed,
+                        "shard": sh["name"],
+                        "case": {"kind": "__shard__", "idx": idx_of[id(sh)],
+                                 "spec": sh}})
+                else:
+                    inconclusive.append(
+                        f"shard {sh['name']} died rc={rc} without result:"
+                        f"\n{tail}")
         running = still
 
     # ---- merge -----------------------------------------------------------
@@ -324,7 +356,7 @@ def _run(mod, pid, tier, seed, thash, workdir, t0) -> int:
     minima: dict[str, Any] = {}
     nt: set[str] = set()
     samples: list = []
-    violations: list[dict] = []
+    violations: list[dict] = list(crash_violations)
     notes: list[str] = []
     exhaustive: list[str] = []
     evaluations = 0
@@ -374,7 +406,9 @@ def _run(mod, pid, tier, seed, thash, workdir, t0) -> int:
         else:
             real.append(v)
 
-    (HOME / "replays").mkdir(exist_ok=True)
+    rpdir = (Path(os.environ["VERIF_EVIDENCE_DIR"]) / "replays"
+             if "VERIF_EVIDENCE_DIR" in os.environ else HOME / "replays")
+    rpdir.mkdir(parents=True, exist_ok=True)
     rc = 0
     for key, v in known_hit.items():
         print(f"KNOWN-FINDING: property={pid} {known_keys[key]['what']} "
@@ -385,7 +419,7 @@ def _run(mod, pid, tier, seed, thash, workdir, t0) -> int:
         if seen_mech[v["mech"]] > 2:
             continue
         h = case_hash(v["mech"], v["case"])
-        path = HOME / "replays" / f"{pid}-{h}.json"
+        path = rpdir / f"{pid}-{h}.json"
         path.write_text(json.dumps(v, indent=1))
         print(f"violation: mech={v['mech']} engine={v['engine']} "
               f"shard={v['shard']}: {v['what'][:600]}")
@@ -423,8 +457,9 @@ def _run(mod, pid, tier, seed, thash, workdir, t0) -> int:
         "wall_s": round(time.time() - t0, 2),
         "violations": len(real),
     }
-    (HOME / "evidence").mkdir(exist_ok=True)
-    (HOME / "evidence" / f"{pid}.json").write_text(
+    evdir = Path(os.environ.get("VERIF_EVIDENCE_DIR", HOME / "evidence"))
+    evdir.mkdir(parents=True, exist_ok=True)
+    (evdir / f"{pid}.json").write_text(
         json.dumps(ev, indent=1, sort_keys=True))
     print(f"{pid} {tier} seed={seed}: evaluations={evaluations} "
           f"distinct_nontrivial={len(nt)} violations={len(real)} "
@@ -444,6 +479,8 @@ def shard_main(pid: str, tier: str, spec_file: str, out_file: str) -> int:
     deps = str(HOME / ".deps")
     if deps not in sys.path:
         sys.path.append(deps)
+    import faulthandler
+    faulthandler.enable()
     ctx = Ctx(pid, tier, seed, spec["idx"], spec["name"], engine)
     mod = importlib.import_module(f"checks.{pid}")
     try:
